@@ -2,7 +2,8 @@
 C07 — a server completes only when its client-authentication policy is satisfied.
 
 Model: `Gotlcp.Model.ServerAuthn` (`doFullHandshake`, `processCertsFromClient`,
-`checkForResumption`, `doResumeHandshake`, both stacks), parameterised by `Tables` filled from the
+`checkForResumption`, `doResumeHandshake`, the point of `handshake()` at which `createSessionState`
+makes a session resumable, both stacks), parameterised by `Tables` filled from the
 regenerated facts `Gotlcp.Facts.{tlcp,dtlcp}.sa*`.  Spec: `Gotlcp.Spec.ServerAuthn`
 (`PolicySatisfied`, `FlowOK`), written from the property text and the documented meaning of the
 six policies.  x509 path validation and SM2 signature verification are inputs (ideal).
@@ -31,7 +32,7 @@ def docTables (g1 g2 rv : Bool) (u : Usages) : Tables :=
     verifyCmp := .ge, verifyRhs := .verifyClientCertIfGiven,
     anyUsage := .requireAndVerifyAnyKeyUsageClientCert, usages := u, ecdheMin := 2,
     cvCmp := .gt, cvRhs := 0, resumeNeedGuard := g1, resumeNoPolicyGuard := g2, resumeReverify := rv,
-    vhsAssertReturns := true }
+    vhsAssertReturns := true, storeAt := .afterFinished }
 
 /-! ### the tables, lemma by lemma -/
 
@@ -244,6 +245,41 @@ theorem full_chains (p : Policy) (b : Behaviour) (h : (full (docTables g1 g2 rv 
       · simpa [Behaviour.present, Behaviour.sent] using hch.2
       · simpa [Behaviour.relied, Behaviour.sent] using h4
 
+/-- in the source as it stands (`createSessionState` after `readFinished`) the part of the handshake
+after the certificates stores a session exactly when it completes -/
+theorem afterCerts_stored (b : Behaviour) (req : Bool) (pc : Certs) (n : Nat) :
+    (afterCerts (docTables g1 g2 rv u) b req pc n).stored =
+      (afterCerts (docTables g1 g2 rv u) b req pc n).completed := by
+  have h1 : ((docTables g1 g2 rv u).storeAt == StorePoint.afterKx) = false := rfl
+  have h2 : ((docTables g1 g2 rv u).storeAt == StorePoint.afterCertVerify) = false := rfl
+  unfold afterCerts
+  simp only [h1, h2]
+  cases b.kxOK <;> cases b.finishedOK <;> cases (docTables g1 g2 rv u).cvCmp.eval pc.peer (docTables g1 g2 rv u).cvRhs <;>
+    rcases b.cv with _ | w <;> simp
+  all_goals cases verifySig (docTables g1 g2 rv u) pc.leaf w <;> simp
+
+theorem full_stored (p : Policy) (b : Behaviour) :
+    (full (docTables g1 g2 rv u) p b).stored = (full (docTables g1 g2 rv u) p b).completed := by
+  unfold full
+  dsimp only
+  split
+  · split
+    · rfl
+    · split
+      · rfl
+      · exact afterCerts_stored _ _ _ _ _ _ _ _
+  · split
+    · rfl
+    · exact afterCerts_stored _ _ _ _ _ _ _ _
+
+/-- a resumed handshake that got as far as `doResumeHandshake` found the session in the cache -/
+theorem resume_hit (t : Tables) (p : Policy) (r : Resume) (h : resume t p r ≠ .notResumed) :
+    r.cacheHit = true := by
+  unfold resume checkForResumption at h
+  cases hc : r.cacheHit
+  · simp [hc] at h
+  · rfl
+
 /-- `sent` of the behaviour a session stands for is the recorded list -/
 theorem origOf_sent (r : Resume) : (origOf r).sent = r.recorded := by
   unfold origOf Behaviour.sent
@@ -313,7 +349,11 @@ for CertificateVerify, the ECDHE minimum of two certificates, the accepted exten
 `verifyHandshakeSignature` returning an error — the remaining shape facts hold (among them: the
 error of each `Verify` call of `processCertsFromClient` is inspected and returned before anything
 else happens to it, an error of `verifyHandshakeSignature` ends `doFullHandshake`, all four suites
-sign with ECC_SM3, whose case asserts `*ecdsa.PublicKey` and verifies with `sm2.VerifyASN1WithSM2`),
+sign with ECC_SM3, whose case asserts `*ecdsa.PublicKey` and verifies with `sm2.VerifyASN1WithSM2`;
+`createSessionState` is called from one place only, an unconditional statement of the full-handshake
+branch of `handshake()` behind the error checks of `pickCipherSuite`, `doFullHandshake`,
+`establishKeys` and `readFinished` — `storeAt = afterFinished` — and is the only server-side writer
+of a `SessionCache`, never storing nil),
 and nothing the extractor looked for is missing. -/
 theorem C07_facts :
     tlcpTables = some (docTables true true true .clientOrServer) ∧
@@ -470,6 +510,99 @@ theorem C07_resumed_history (t : Tables) (ht : IsStack t) (p1 p2 : Policy) (b1 :
       simpa using hp
     rw [hp']; simp
 
+/-! ### when a session becomes resumable -/
+
+/-- **A session is stored exactly by a completed handshake**: `createSessionState` — the only writer
+of the server's session cache (`C07_facts`) — runs in a full handshake iff the handshake completes:
+after `doFullHandshake` (with the CertificateVerify check) and `readFinished` both returned nil.  A
+handshake that stops at the certificates, the key exchange, the CertificateVerify or the Finished
+leaves nothing in the cache. -/
+theorem C07_stored_iff_completed (t : Tables) (ht : IsStack t) (p : Policy) (b : Behaviour) :
+    (full t p b).stored = (full t p b).completed := by
+  rw [stack_tables ht]
+  exact full_stored _ _ _ _ p b
+
+/-- **A resumable session exists only if the policy was satisfied**: whenever the cache holds a
+session made by a client of behaviour `b` under policy `p`, the client's flight was well-formed,
+`PolicySatisfied p b` held, and recorded certificates are covered by a checked proof of possession. -/
+theorem C07_stored_only_if_policy_satisfied (t : Tables) (ht : IsStack t) (p : Policy) (b : Behaviour)
+    (h : (full t p b).stored = true) :
+    ShouldComplete p b = true ∧ PolicySatisfied p b = true ∧ ((full t p b).recorded ≠ 0 → b.pop = true) := by
+  rw [C07_stored_iff_completed t ht] at h
+  have hs : ShouldComplete p b = true := by rw [← C07_full t ht]; exact h
+  refine ⟨hs, ?_, fun hr => (C07_session_pop t ht p b h hr).1⟩
+  unfold ShouldComplete at hs
+  simp only [Bool.and_eq_true] at hs
+  exact hs.2
+
+/-- **A failed handshake is never resumed**: when the first connection of a history does not
+complete — whatever the reason: bad chain, CertificateVerify missing / by another key / over another
+transcript, wrong Finished — offering the session id it announced (with the master secret the client
+computed) never resumes: `checkForResumption` returns false and a full handshake follows. -/
+theorem C07_failed_first_never_resumes (t : Tables) (ht : IsStack t) (p1 p2 : Policy) (b1 : Behaviour)
+    (now : List Cert) (offer mech fin : Bool) (hf : (full t p1 b1).completed = false) :
+    history t p1 p2 b1 now offer mech fin = .notResumed := by
+  have hs : (full t p1 b1).stored = false := by rw [C07_stored_iff_completed t ht]; exact hf
+  unfold history resume checkForResumption
+  simp [hs]
+
+/-- **Histories, without assuming that the first handshake completed**: a client of behaviour `b1`
+meets a server under `p1`; then the session id of that connection is offered to a server under `p2`
+sharing the cache, where the recorded certificates have the verdicts `now`.  If the second
+connection is resumed and completes, then the first handshake completed, `b1` satisfied `p1`, and
+`b1` judged under the configuration now in force satisfies `p2`. -/
+theorem C07_history (t : Tables) (ht : IsStack t) (p1 p2 : Policy) (b1 : Behaviour)
+    (now : List Cert) (offer mech fin : Bool)
+    (hlen : now.length = (full t p1 b1).recorded)
+    (hkey : now.head?.map (·.key) = b1.sent.head?.map (·.key))
+    (n : Nat) (ch : Bool) (hres : history t p1 p2 b1 now offer mech fin = .resumedDone n ch) :
+    (full t p1 b1).completed = true ∧ PolicySatisfied p1 b1 = true ∧
+    PolicySatisfied p2 { b1 with certMsg := !now.isEmpty, certs := now } = true := by
+  have hhit := resume_hit t p2 _ (by unfold history at hres; rw [hres]; simp)
+  have hst : (full t p1 b1).stored = true := by
+    simp only [Bool.and_eq_true] at hhit
+    exact hhit.1
+  have hfull : (full t p1 b1).completed = true := by rw [← C07_stored_iff_completed t ht]; exact hst
+  refine ⟨hfull, (C07_stored_only_if_policy_satisfied t ht p1 b1 hst).2.1, ?_⟩
+  apply C07_resumed_history t ht p1 p2 b1 now ((full t p1 b1).stored && offer) mech fin hfull hlen hkey
+  unfold resumedCompletes
+  unfold history at hres
+  rw [hres]
+
+/-- a source that stored the session as soon as the master secret is derived (before the
+CertificateVerify is read) would let a client that sent somebody else's trusted certificate with a
+CertificateVerify by another key — refused at the proof of possession — resume the session it left
+behind: completion with that certificate as peer certificate and verified chains although the
+policy was never satisfied (the negation of `C07_history` for such tables, on the witness); the
+source as it stands does not resume it -/
+example :
+    let t : Tables := { docTables true true true .clientOrServer with storeAt := .afterKx }
+    let b : Behaviour := { ecdhe := false, certMsg := true, certs := [⟨true, true, true, .sm2⟩], parseOK := true,
+                           kxOK := true, cv := some ⟨false, true⟩, finishedOK := true }
+    (full t .requireAndVerifyClientCert b).stage = .pop ∧
+    (full t .requireAndVerifyClientCert b).completed = false ∧
+    (full t .requireAndVerifyClientCert b).stored = true ∧
+    history t .requireAndVerifyClientCert .requireAndVerifyClientCert b [⟨true, true, true, .sm2⟩] true true true
+      = .resumedDone 1 true ∧
+    PolicySatisfied .requireAndVerifyClientCert b = false ∧
+    history (docTables true true true .clientOrServer) .requireAndVerifyClientCert .requireAndVerifyClientCert b
+      [⟨true, true, true, .sm2⟩] true true true = .notResumed := by decide
+
+/-- the same for a store point after the CertificateVerify but before the Finished: a handshake
+whose Finished is wrong would leave a resumable session -/
+example :
+    let t : Tables := { docTables true true true .clientOrServer with storeAt := .afterCertVerify }
+    let b : Behaviour := { ecdhe := false, certMsg := true, certs := [⟨true, true, true, .sm2⟩], parseOK := true,
+                           kxOK := true, cv := some ⟨true, true⟩, finishedOK := false }
+    (full t .requireAndVerifyClientCert b).stage = .finished ∧ (full t .requireAndVerifyClientCert b).stored = true ∧
+    (full (docTables true true true .clientOrServer) .requireAndVerifyClientCert b).stored = false := by decide
+
+/-- non-vacuity of `C07_history`: an honest first connection is resumed -/
+example : history (docTables true true true .clientOrServer) .requireAndVerifyClientCert .requireAndVerifyClientCert
+    { ecdhe := false, certMsg := true, certs := [⟨true, true, true, .sm2⟩], parseOK := true,
+      kxOK := true, cv := some ⟨true, true⟩, finishedOK := true } [⟨true, true, true, .sm2⟩] true true true
+    = .resumedDone 1 true := by decide
+
 /-! ### every certificate the server relies on is judged on its own; foreign keys -/
 
 /-- **Each relied-on certificate is verified separately**: under a verifying policy the server
@@ -520,7 +653,7 @@ example :
     (full (docTables true true true .clientOrServer) .requireAndVerifyClientCert b).stage = .pop ∧
     ShouldComplete .requireAndVerifyClientCert b = false ∧
     full { docTables true true true .clientOrServer with vhsAssertReturns := false } .requireAndVerifyClientCert b =
-      { completed := true, stage := .done, certReq := true, peerCerts := 1, chains := true, popChecked := true, recorded := 1 } := by
+      { completed := true, stage := .done, certReq := true, peerCerts := 1, chains := true, popChecked := true, recorded := 1, stored := true } := by
   decide
 
 /-! ### F6 — the unrepaired code violates the resumption clause (negation on a witness) -/
@@ -605,7 +738,7 @@ example :
     let b : Behaviour := { ecdhe := true, certMsg := true, certs := [⟨false, false, false, .sm2⟩, ⟨false, false, false, .sm2⟩],
                            parseOK := true, kxOK := true, cv := some ⟨true, true⟩, finishedOK := true }
     full (docTables true true true .clientOrServer) .noClientCert b =
-      { completed := true, stage := .done, certReq := true, peerCerts := 2, chains := false, popChecked := true, recorded := 2 } ∧
+      { completed := true, stage := .done, certReq := true, peerCerts := 2, chains := false, popChecked := true, recorded := 2, stored := true } ∧
     ShouldComplete .noClientCert b = true := by decide
 
 /-- under `NoClientCert` + ECDHE a client without certificates is refused — by the key
@@ -652,7 +785,7 @@ example :
     let b : Behaviour := { ecdhe := true, certMsg := true, certs := [⟨true, true, true, .sm2⟩, ⟨true, true, true, .sm2⟩],
                            parseOK := true, kxOK := true, cv := some ⟨true, true⟩, finishedOK := true }
     full (docTables true true true .clientOrServer) .requireAndVerifyClientCert b =
-      { completed := true, stage := .done, certReq := true, peerCerts := 2, chains := true, popChecked := true, recorded := 2 } := by
+      { completed := true, stage := .done, certReq := true, peerCerts := 2, chains := true, popChecked := true, recorded := 2, stored := true } := by
   decide
 
 /-- a certificate sent with the CertificateVerify missing, signed by another key, or signed over
